@@ -89,6 +89,15 @@ impl Vm {
   /// Create a new module
   pub(super) fn module(&mut self, name: &str, path: &str) -> Ref<Module> {
     let id = self.emitter.emit();
+
+    // every module id indexes the inline caches. Reserve the entry together
+    // with the id, a module whose file fails to compile still owns its id
+    if self.inline_cache.len() <= id {
+      self
+        .inline_cache
+        .resize_with(id + 1, || InlineCache::new(0, 0));
+    }
+
     let hooks = GcHooks::new(self);
 
     // create a new module class that subclass
